@@ -13,18 +13,22 @@ def init(aux=None):
     _impl.update(Dataset=Dataset, SS=ScoringScheme, KSR=KwikSortRandom)
 
 
-def _controlled(am, schedule, log, sizes):
+def _controlled(am):
+    """one algorithm OBJECT whose pivot schedule / logs are replaced before each run"""
     KSR = _impl["KSR"]
 
     class Controlled(KSR):
+        def __init__(self):
+            self.schedule, self.log, self.sizes = [], [], []
+
         def _get_pivot(self, mapping_elements_id, elements, positions, scoring_scheme):
-            k = len(log)
+            k = len(self.log)
             # deterministic presentation order: sort candidates by abstract number
             cands = sorted(elements, key=lambda e: am.elem(e))
-            choice = schedule[k] if k < len(schedule) else 0
-            sizes.append(len(cands))
+            choice = self.schedule[k] if k < len(self.schedule) else 0
+            self.sizes.append(len(cands))
             p = cands[choice % len(cands)]
-            log.append([sorted(am.elem(e) for e in elements), am.elem(p)])
+            self.log.append([sorted(am.elem(e) for e in elements), am.elem(p)])
             return p
     return Controlled()
 
@@ -39,14 +43,33 @@ def run_all_schedules(case):
         ss = _impl["SS"](core.scheme_float(B, T, unit))
     except Exception as ex:
         return {"id": case["id"], "runs": []}
-    identical = 1 if all(r == case["D"][0] for r in case["D"]) else 0
+    shared = None
+    D = case["D"]
+    if case.get("ops"):
+        # history: ONE algorithm object for all runs; it first sorts the dataset, the dataset is then modified in
+        # place, and every schedule is run on the modified dataset with the same object
+        try:
+            shared = _controlled(am)
+            shared.compute_consensus_rankings(ds, ss, True)
+            for op in case["ops"]:
+                if op["op"] == "remove_elements":
+                    ds.remove_elements({am.value(x) for x in op["S"]})
+                elif op["op"] == "remove_rate":
+                    ds.remove_elements_rate_presence_lower_than(op["p"] / op["q"])
+                else:
+                    ds.remove_empty_rankings()
+            D = [am.ranking(r) for r in ds.rankings]
+        except Exception:
+            return {"id": case["id"], "runs": []}
+    identical = 1 if all(r == D[0] for r in D) else 0
     schedule = []
     while True:
-        log, sizes = [], []
-        rec = {"D": case["D"], "sch": case["sch"], "naming": case["naming"], "schedule": list(schedule),
+        rec = {"D": D, "sch": case["sch"], "naming": case["naming"], "schedule": list(schedule),
                "identical": identical, "out": "", "K": [], "steps": []}
+        alg = shared if shared is not None else _controlled(am)
+        alg.schedule, alg.log, alg.sizes = list(schedule), [], []
+        log, sizes = alg.log, alg.sizes
         try:
-            alg = _controlled(am, schedule, log, sizes)
             cons = core.with_alarm(20, alg.compute_consensus_rankings, ds, ss, True)
             rec["K"] = [am.ranking(r) for r in cons.consensus_rankings]
             rec["out"] = "consensus"
